@@ -40,6 +40,8 @@ func errReturned(fn *ssa.Function, call *ssa.Call) bool {
 
 func runC20(c *Ctx) {
 	r := c.R
+	defer borrowRules(c, "C01", runC01inner, map[string]string{"R1.6": "R20.5"}, "an entry is the stamp followed by one whole frame: a full-size signed frame must not be cut")
+	defer borrowRules(c, "C05", runC05, map[string]string{"R5.3": "R20.6", "R5.7": "R20.7"}, "reading a log back consumes exactly the bytes of each entry's frame, for every payload length up to 255")
 	r.NotDecided = append(r.NotDecided,
 		"round-trip equality of entry sequences as an observed behaviour",
 		"behaviour at every cut point (follows from R20.4 + C05 + io.ReadFull's contract, not observed)")
